@@ -97,6 +97,25 @@ theorem xmgen_idxE_rev {α : Type} (xs : List α) (k : Nat) :
     have h3 : xs.reverse[k]? = none := by simp; omega
     simp only [h1, if_true, h3]
 
+/-- inside the range, every spelling of "the `k`-th item from the end" (`xs[-1 - k]`, `xs[-(k + 1)]`,
+`xs[len(xs) - 1 - k]`, …) reads the `k`-th item of the reversed list -/
+theorem xmgen_idxE_rev_in {α : Type} (xs : List α) (k : Nat) (hk : k < xs.reverse.length) (i : Int)
+    (hi : i = -(1 : Int) - (k : Int) ∨ i = (xs.length : Int) - 1 - (k : Int)) :
+    idxE xs i = .ok xs.reverse[k] := by
+  have hk' : k < xs.length := by simpa using hk
+  have e : idxE xs i = idxE xs (-(1 : Int) - (k : Int)) := by
+    rcases hi with hi | hi
+    · rw [hi]
+    · subst hi
+      unfold idxE
+      simp only [Int.ofNat_eq_natCast]
+      have a1 : ¬ ((xs.length : Int) - 1 - (k : Int) < 0) := by omega
+      have a2 : (-(1 : Int) - (k : Int)) < 0 := by omega
+      have a3 : ¬ (-(1 : Int) - (k : Int) + (xs.length : Int) < 0) := by omega
+      have a4 : ((xs.length : Int) - 1 - (k : Int)).toNat = (-(1 : Int) - (k : Int) + (xs.length : Int)).toNat := by omega
+      simp only [a1, a2, a3, if_false, if_true, a4]
+  rw [e, xmgen_idxE_rev, List.getElem?_eq_getElem hk]
+
 /-! ### the inner loop (`for j, part in enumerate(reversed(xpath_itm_parts))`) -/
 
 /-- how one iteration of the inner loop ends: `p` = pattern part, `k` = its position from the end, `xs` = parts of the
@@ -204,36 +223,45 @@ theorem xmgen_outer_fold (x : Str)
 
 /-! ### the generated steps satisfy the characterisations -/
 
-/-- unfold a generated inner step and decide its tests (`j >= len(xs)` in any of its four spellings, emptiness,
-`"*"`, the two `lower()`s) -/
+/-- unfold a generated inner step and decide its tests (`j >= len(xs)` in any of its four spellings, emptiness in
+any spelling, `"*"`, the two `lower()`s, the index expression in any of the spellings of `xmgen_idxE_rev_in`) -/
 macro "xmgen_inner_step_tac" stepName:ident xs:ident : tactic =>
   `(tactic| (
     intro p k
     unfold $stepName innerView
-    simp only [Int.ofNat_eq_natCast, xmgen_idxE_rev]
+    simp only [Int.ofNat_eq_natCast]
     by_cases hp : p.isEmpty = true
-    · simp [hp]
-    · by_cases hk : k < ($xs).length
+    · have hp' : p = [] := List.isEmpty_iff.mp hp
+      subst hp'
+      simp
+    · have hp1 : p ≠ [] := fun h => hp (List.isEmpty_iff.mpr h)
+      have hp2 : ¬ ((p.length : Int) = 0) := by
+        have : p.length ≠ 0 := fun h => hp1 (List.eq_nil_of_length_eq_zero h)
+        omega
+      have hp3 : (p == []) = false := by cases p with | nil => exact absurd rfl hp1 | cons _ _ => rfl
+      by_cases hk : k < ($xs).length
       · have hk' : k < ($xs).reverse.length := by simpa using hk
         have hge : ¬ ((k : Int) ≥ ($xs).length) := by omega
         have hle : ¬ ((($xs).length : Int) ≤ k) := by omega
         have hgt : ((($xs).length : Int) > k) := by omega
         have hlt : ((k : Int) < ($xs).length) := by omega
+        have hidx := xmgen_idxE_rev_in $xs k hk'
         rw [List.getElem?_eq_getElem hk']
         by_cases hs : p = ['*'] <;> by_cases hl : Py.lower p = Py.lower ($xs).reverse[k] <;>
-          simp only [hp, hge, hle, hgt, hlt, hs, hl, Bool.not_not, Bool.false_eq_true, if_false, if_true,
-            decide_false, decide_true, bne_self_eq_false, ne_eq, not_true_eq_false, not_false_eq_true, and_self,
+          simp (disch := omega) only [hp, hp1, hp2, hp3, hge, hle, hgt, hlt, hs, hl, hidx, Bool.not_not, Bool.false_eq_true, if_false,
+            if_true, decide_false, decide_true, bne_self_eq_false, ne_eq, not_true_eq_false, not_false_eq_true, and_self,
             and_false, false_and, and_true, true_and, bne_iff_ne, Bool.not_true, Bool.not_false,
             Bool.and_true, Bool.true_and, Bool.and_false, Bool.false_and, Bool.or_true, Bool.true_or,
             Bool.or_false, Bool.false_or, Bool.and_eq_true, Bool.or_eq_true, beq_iff_eq, decide_eq_true_eq,
-            List.isEmpty_iff] <;> rfl
+            decide_not, bne_eq_false_iff_eq, beq_eq_false_iff_ne, reduceCtorEq, List.cons_ne_nil] <;> rfl
       · have h1 : ($xs).reverse[k]? = none := List.getElem?_eq_none (by simpa using Nat.le_of_not_lt hk)
         have hge : ((k : Int) ≥ ($xs).length) := by omega
         have hle : ((($xs).length : Int) ≤ k) := by omega
         have hgt : ¬ ((($xs).length : Int) > k) := by omega
         have hlt : ¬ ((k : Int) < ($xs).length) := by omega
-        simp only [hp, h1, hge, hle, hgt, hlt, Bool.not_not, Bool.false_eq_true, if_false, if_true,
-          decide_false, decide_true, Bool.not_true, Bool.not_false]))
+        simp only [hp, hp1, hp2, hp3, h1, hge, hle, hgt, hlt, Bool.not_not, Bool.false_eq_true, if_false, if_true,
+          decide_false, decide_true, Bool.not_true, Bool.not_false, ne_eq, not_false_eq_true, not_true_eq_false,
+          decide_not, beq_iff_eq]))
 
 theorem xmgen_stepSeq (xs : List Str) (i : Int) :
     ∀ p k, XpathMatchSeq.step xs i () (p, k) = .ok (innerView xs i p k) := by
